@@ -272,6 +272,13 @@ func (c *ProcCase) SetDocOrder(flowOrder int, flowsFirst bool) {
 	}
 }
 
+// SetNodesReversed: the flow nodes stand in the document in reverse order (see Definitions.NodesReversed).
+func (c *ProcCase) SetNodesReversed(on bool) {
+	if c.Prog != nil && c.Prog.Defs != nil {
+		c.Prog.Defs.NodesReversed = on
+	}
+}
+
 // SetExplicitDefaults: optional attributes are written out with their default values (see Definitions.ExplicitDefaults).
 func (c *ProcCase) SetExplicitDefaults(on bool) {
 	if c.Prog != nil && c.Prog.Defs != nil {
